@@ -36,9 +36,9 @@ Section Idem.
      get finalized (the code reads the bip32_derivation / tap_key_origins key sets of all
      inputs, which finalization clears). *)
   Definition try_stable : Prop :=
-    forall st st' i m e, fo_state st st' ->
+    forall st st' i m k e, fo_state st st' ->
       nth_error (p_inputs st') i = nth_error (p_inputs st) i ->
-      try_input st i m = TErr e -> try_input st' i m = TErr e.
+      try_input st i m = TErr k e -> try_input st' i m = TErr k e.
 
   Hypothesis Hne : try_nonempty.
   Hypothesis Hst : try_stable.
@@ -52,15 +52,11 @@ Section Idem.
 
   (* the errors a pass over [idxs] reports on a state it does not change *)
   Definition errs_of (st : psbt) (m : bool) (idxs : list nat) : list (nat * N) :=
-    flat_map (fun k => match nth_error (p_inputs st) k with
-                       | Some a => if is_final a then []
-                                   else match try_input st k m with TErr e => [(k, e)] | TOk _ _ => [] end
-                       | None => []
-                       end) idxs.
+    flat_map (fun k => match finalize_inputM st k m with FErr k' e => [(k', e)] | _ => [] end) idxs.
 
+  (* an attempt on input k leaves [st] as it is: the input is final, or the attempt fails *)
   Definition settled (st : psbt) (m : bool) (k : nat) : Prop :=
-    exists a, nth_error (p_inputs st) k = Some a /\
-              (is_final a = true \/ exists e, try_input st k m = TErr e).
+    finalize_inputM st k m = FOk st \/ exists k' e, finalize_inputM st k m = FErr k' e.
 
   Lemma pass_fixed m idxs : forall st errs,
     (forall k, In k idxs -> settled st m k) ->
@@ -68,13 +64,14 @@ Section Idem.
   Proof.
     induction idxs as [|i r IH]; intros st errs H; simpl.
     - now rewrite app_nil_r.
-    - destruct (H i (or_introl eq_refl)) as (a & Ha & Hcase).
-      unfold finalize_input. rewrite Ha. destruct (is_final a) eqn:Hf.
+    - destruct (H i (or_introl eq_refl)) as [Hc|(k' & e & Hc)]; rewrite Hc.
       + simpl. apply IH. intros k Hk. apply H. right; auto.
-      + destruct Hcase as [Hc|(e & He)]; [congruence|]. rewrite He.
-        rewrite IH by (intros k Hk; apply H; right; auto).
+      + rewrite IH by (intros k Hk; apply H; right; auto).
         simpl. now rewrite <- app_assoc.
   Qed.
+
+  Lemma final_settled st m i a : nth_error (p_inputs st) i = Some a -> is_final a = true -> finalize_inputM st i m = FOk st.
+  Proof. intros Ha Hf. unfold finalize_input. now rewrite Ha, Hf. Qed.
 
   Lemma first_pass m idxs : NoDup idxs -> forall st errs st' es p,
     (forall k, In k idxs -> k < length (p_inputs st)) ->
@@ -89,13 +86,13 @@ Section Idem.
       + intros k a Ha. exists a. split; auto. left; auto.
       + intros k [].
     - pose proof (specM st i m) as S.
-      destruct (finalize_inputM st i m) as [st1|e|] eqn:Hfi.
+      destruct (finalize_inputM st i m) as [st1|k0 e|] eqn:Hfi.
       + assert (Hlen : length (p_inputs st1) = length (p_inputs st))
           by (apply sreach_length; eapply finalize_input_sreach; eauto).
         destruct (IH st1 errs st' es p) as (Hp & Hfo & Hout & Hes & Hset); auto.
         { intros k Hk. rewrite Hlen. apply Hlt. right; auto. }
         assert (Hi' : nth_error (p_inputs st') i = nth_error (p_inputs st1) i) by (apply Hout; auto).
-        destruct S as (a & Ha & Hcase).
+        destruct S as (a & Ha & Hcase & _).
         (* the input at i after this step is final *)
         assert (Hfin : exists a1, nth_error (p_inputs st1) i = Some a1 /\ is_final a1 = true /\ fo a a1).
         { destruct Hcase as [[Hf ->]|(Hf & s & w & Ht & ->)].
@@ -103,6 +100,7 @@ Section Idem.
           - exists (cleared a s w). split. simpl. eapply nth_set_nth_eq; eauto.
             split. eapply cleared_final; eauto. right. split; auto. eauto. }
         destruct Hfin as (a1 & Ha1 & Hf1 & Hfo1).
+        assert (Hsi : finalize_inputM st' i m = FOk st') by (eapply final_settled; eauto; congruence).
         split; auto. split; [|split; [|split]].
         * destruct Hfo as (T & N & L & P). repeat split; try congruence.
           { destruct Hcase as [[_ ->]|(_ & s & w & _ & ->)]; simpl in *; congruence. }
@@ -112,17 +110,21 @@ Section Idem.
           -- rewrite <- (finalize_input_other try_input _ _ _ _ k Hfi Hk) in Hb. apply P; auto.
         * intros k Hk. rewrite Hout by (intro; apply Hk; right; auto).
           apply (finalize_input_other try_input _ _ _ _ k Hfi). intro; subst; apply Hk; left; auto.
-        * rewrite Hes. simpl. rewrite Hi', Ha1, Hf1. reflexivity.
-        * intros k [<-|Hk]; auto. exists a1. rewrite Hi'. auto.
-      + destruct S as (a & Ha & Hf & Ht).
-        destruct (IH st (errs ++ [(i, e)]) st' es p) as (Hp & Hfo & Hout & Hes & Hset); auto.
+        * rewrite Hes. unfold errs_of. simpl. rewrite Hsi. reflexivity.
+        * intros k [<-|Hk]; auto. left; auto.
+      + destruct S as (a & Ha & Hf & Hc).
+        destruct (IH st (errs ++ [(k0, e)]) st' es p) as (Hp & Hfo & Hout & Hes & Hset); auto.
         { intros k Hk. apply Hlt. right; auto. }
         assert (Hi' : nth_error (p_inputs st') i = nth_error (p_inputs st) i) by (apply Hout; auto).
-        assert (Ht' : try_input st' i m = TErr e) by (eapply Hst; eauto).
+        assert (Hsi : finalize_inputM st' i m = FErr k0 e).
+        { unfold finalize_input. rewrite Hi', Ha, Hf.
+          destruct Hc as [(Hu & -> & ->)|(Hu & Ht)].
+          - now rewrite Hu.
+          - destruct (get_utxo a); [|congruence]. now rewrite (Hst _ _ _ _ _ _ Hfo Hi' Ht). }
         split; auto. split; auto. split; [|split].
         * intros k Hk. apply Hout. intro; apply Hk; right; auto.
-        * rewrite Hes. simpl. rewrite Hi', Ha, Hf, Ht'. rewrite <- app_assoc. reflexivity.
-        * intros k [<-|Hk]; auto. exists a. rewrite Hi'. split; auto. right; eauto.
+        * rewrite Hes. unfold errs_of. simpl. rewrite Hsi. rewrite <- app_assoc. reflexivity.
+        * intros k [<-|Hk]; auto. right; eauto.
       + specialize (Hlt i (or_introl eq_refl)). lia.
   Qed.
 
@@ -150,11 +152,11 @@ Section Idem.
     destruct (Nat.leb_spec (length (p_inputs st)) i) as [Hle|Hlt].
     - inversion H; subst. destruct (Nat.leb_spec (length (p_inputs st')) i); auto; lia.
     - pose proof (specM st i (inp_mall m)) as S.
-      destruct (finalize_inputM st i (inp_mall m)) as [st1|e|] eqn:Hfi.
+      destruct (finalize_inputM st i (inp_mall m)) as [st1|k0 e|] eqn:Hfi.
       + inversion H; subst.
         rewrite (sreach_length _ _ (finalize_input_sreach _ _ _ _ _ Hfi)).
         destruct (Nat.leb_spec (length (p_inputs st)) i); [lia|].
-        destruct S as (a & Ha & [[Hf ->]|(Hf & s & w & Ht & ->)]).
+        destruct S as (a & Ha & [[Hf ->]|(Hf & s & w & Ht & ->)] & _).
         * rewrite Hfi. reflexivity.
         * unfold finalize_input. simpl. rewrite (nth_set_nth_eq _ _ _ _ Ha).
           rewrite (cleared_final a s w _ _ _ Ht). reflexivity.
@@ -172,10 +174,10 @@ Example idempotent_needs_nonempty :
     let f := fun s => finalize_mut try_input s false in
     fst (f (fst (f st))) <> fst (f st) \/ snd (f (fst (f st))) <> snd (f st).
 Proof.
-  pose (blank := mkIn None None [] None None None [] None None [] [] [] [] None [] [] [] None None [] []).
+  pose (blank := mkIn None (Some (mkTxOut 1%N 1%N)) [] None None None [] None None [] [] [] [] None [] [] [] None None [] []).
   exists (fun st i m => match p_inputs st with
-                        | a :: _ => match i_psigs a with [] => TErr 10%N | _ => TOk 0%N 0%N end
-                        | [] => TErr 10%N end),
+                        | a :: _ => match i_psigs a with [] => TErr 0 10%N | _ => TOk 0%N 0%N end
+                        | [] => TErr 0 10%N end),
          (mkPsbt 1%N 1 [set_psigs blank [(1%N, 1%N)]]).
   right. vm_compute. discriminate.
 Qed.
@@ -186,10 +188,10 @@ Example idempotent_needs_stability :
     let f := fun s => finalize_mut try_input s false in
     fst (f (fst (f st))) <> fst (f st).
 Proof.
-  pose (blank := mkIn None None [] None None None [] None None [] [] [] [] None [] [] [] None None [] []).
+  pose (blank := mkIn None (Some (mkTxOut 1%N 1%N)) [] None None None [] None None [] [] [] [] None [] [] [] None None [] []).
   exists (fun st i m => match i, p_inputs st with
-                        | 0, [_; b] => match i_bip32 b with [] => TOk 7%N 0%N | _ => TErr 10%N end
+                        | 0, [_; b] => match i_bip32 b with [] => TOk 7%N 0%N | _ => TErr 0 10%N end
                         | _, _ => TOk 8%N 0%N end),
-         (mkPsbt 1%N 2 [blank; mkIn None None [] None None None [(1%N, 1%N)] None None [] [] [] [] None [] [] [] None None [] []]).
+         (mkPsbt 1%N 2 [blank; mkIn None (Some (mkTxOut 1%N 1%N)) [] None None None [(1%N, 1%N)] None None [] [] [] [] None [] [] [] None None [] []]).
   vm_compute. discriminate.
 Qed.
